@@ -3,8 +3,8 @@
    duplicates included, optional %YAML) x every tag spelling x node kind, over 1-2 documents
    (3 with Docs = 3), keep_tags on/off. Each behaviour is rendered to text and printed with the
    outcome YTagsRef assigns: per document the tag of the root node, or that an error is expected
-   in that document. With keep_tags on, later documents carry no %TAG lines (whether a later
-   directive set extends or replaces a kept one is left open by the property).                 *)
+   in that document. With keep_tags on, a later document may carry %TAG lines of its own; a tag whose
+   handle it does not declare itself is then not judged (extend-or-replace is left open).                 *)
 EXTENDS YTagsRef, TLC, Json
 CONSTANTS Docs, Full
 H1 == <<"!">>
@@ -29,7 +29,6 @@ DocChoices(first) == [dirs : (IF first \/ Full THEN DirLists ELSE DirListsSmall)
 Init == docs = <<>> /\ keep \in BOOLEAN /\ done = FALSE
 AddDoc == /\ ~done /\ Len(docs) < Docs
           /\ \E d \in DocChoices(docs = <<>>) :
-               /\ (keep /\ docs # <<>>) => d.dirs = <<>>
                /\ d.bare => (d.dirs = <<>> /\ ~d.yaml)
                /\ docs' = Append(docs, d)
           /\ UNCHANGED <<keep, done>>
@@ -59,10 +58,17 @@ RECURSIVE InForce(_, _, _)
 InForce(ds, i, k) == \* table in force for document i (k = keep_tags)
   IF ds[i].dirs # <<>> THEN ds[i].dirs
   ELSE IF k /\ i > 1 THEN InForce(ds, i - 1, k) ELSE <<>>
+\* With keep_tags on, a later document that has %TAG lines of its own: whether they extend or replace the kept
+\* table is left open by the property, so a spelling is only judged when its handle is declared by the document
+\* itself (then both readings agree) or when it does not go through a handle; otherwise the stream is not judged
+\* from that document on ("open").
+HandleOf(sp) == IF sp.form = "named" THEN <<"!">> \o sp.h \o <<"!">> ELSE IF sp.form = "secondary" THEN <<"!", "!">> ELSE IF sp.form = "primary" THEN <<"!">> ELSE <<>>
+OpenCase(ds, i, k) == k /\ i > 1 /\ ds[i].dirs # <<>> /\ HandleOf(ds[i].sp) # <<>> /\ Bound(ds[i].dirs, HandleOf(ds[i].sp)) = <<>>
 RECURSIVE Expect(_, _, _)
 Expect(ds, i, k) ==
   IF i > Len(ds) THEN <<>>
   ELSE IF ~DirectivesOK(ds[i].dirs) THEN << [err |-> TRUE, tag |-> <<>>, kind |-> ds[i].kind] >>
+  ELSE IF OpenCase(ds, i, k) THEN << [err |-> FALSE, tag |-> <<>>, kind |-> "open"] >>
   ELSE LET r == Resolve(InForce(ds, i, k), ds[i].sp) IN
        IF ~r.ok THEN << [err |-> TRUE, tag |-> <<>>, kind |-> ds[i].kind] >>
        ELSE << [err |-> FALSE, tag |-> r.tag, kind |-> ds[i].kind] >> \o Expect(ds, i + 1, k)
